@@ -356,6 +356,9 @@ def main():
     expected = registry.expected_count(pid)
     if not a.no_deductive and expected and n_ob == 0:
         checker_error = 'zero obligations generated (expected about %d)' % expected
+    count_warning = None
+    if not a.no_deductive and expected and tier == 'quick' and n_ob < 0.8 * expected:
+        count_warning = 'only %d obligations generated, %d expected: contracts no longer attach to the code (see undecided)' % (n_ob, expected)
 
     # ---- evidence ------------------------------------------------------------------------
     level = info['level']
@@ -416,6 +419,8 @@ def main():
     print('%s tier=%s: %d obligations, %d discharged, %d refuted, %d undecided; bounded: %s evaluations, %d failing (%d known); %.1fs' % (
         pid, tier, n_ob, len(proved), len(refuted), len(undecided),
         (bounded or {}).get('evaluations', 'n/a'), len(bfail), known_bounded, time.time() - t0))
+    if count_warning:
+        print('CHECKER-WARNING ' + count_warning)
     for u in undecided[:10]:
         print('UNDECIDED %s: %s' % (u['name'], str(u.get('detail'))[:160]))
     for l in known_lines:
